@@ -1,5 +1,5 @@
 """C12 -- the in-memory object cache is invisible and bounded."""
-from contracts import lru
+from contracts import lru, set_store
 
 ID = "C12"
 LEVEL = "proof"
@@ -22,7 +22,7 @@ REPLAY = {
 
 
 def specs():
-    return [c() for c in lru.SPECS]
+    return [c() for c in lru.SPECS] + [c() for c in set_store.CACHE_SPECS]
 
 LEVEL_TEXT = ("Deductive proof, unbounded in keys, values, capacities and operation sequences: each public method of the cache and of the "
               "cache-wrapped store is proved (from its real AST) to preserve the representation invariant and to answer exactly as the wrapped store's interface contract; "
